@@ -217,6 +217,20 @@ Definition serve (t : table) (q : request) : response :=
 Definition admitted (t : table) (q : request) : bool :=
   auth (t_action t) (if t_withpath t then Some (q_path q) else None) (q_creds q) (q_ip q).
 
+(* whether gin finds a route for the request *)
+Definition routed (t : table) (q : request) : bool :=
+  match find_route (c_routes (compile t)) (q_method q) (q_pattern q) with
+  | Some _ => true
+  | None => q_listed q && match c_externs (compile t) with [] => false | _ => true end
+  end.
+
+(* the answer to a refused request on a table of today's shape (tbl_strict) *)
+Definition denied_status (t : table) (q : request) : Z :=
+  if is_preflight q then 204%Z
+  else if t_withpath t then
+         (if routed t q then (if valid_path (q_path q) then 401%Z else 400%Z) else 404%Z)
+       else 401%Z.
+
 End Serve.
 
 (* ---- decidable conditions on a table --------------------------------------------------- *)
